@@ -26,6 +26,7 @@ def bases(seed):
         S(items=[F('a', 1)], distinct='distinct', order={'keys': [F('a', 1)], 'desc': False}),
         S(items=[F('a', 1), F('a', 2)], distinct='count', top=('LIMIT', 2)),
         S(items=[('star', None)], where=w1, top=('LIMIT', 1)),
+        S(items=[F('a', 1)], top=('LIMIT', 0)), S(items=[F('a', 1), F('a', 2)], where=w2, top=('TOP', 0), order={'keys': [F('a', 1)], 'desc': False}),
         S(items=[F('a', 1), F('b', 2)], join=J('JOIN'), where=w2),
         S(items=[F('a', 1), F('b', 2)], join=J('INNER JOIN'), order={'keys': [F('b', 2)], 'desc': True}, top=('TOP', 3)),
         S(items=[('star', None)], join=J('LEFT JOIN')),
